@@ -372,4 +372,180 @@ theorem rrData_complete {bs : Bytes} {rd rdlength : Nat} (w : Win bs rd rdlength
       · simp only [Rfc.RR.toRec, refRR, Rfc.typeOPT, if_neg h41, hf, hcl, httl']
       · simp [optHi, h41]
 
+theorem decodeRR_eq {bs : Bytes} {p q : Nat} {owner : List Rfc.Label} (hn : Rfc.name bs p = some (owner, q))
+    (h10 : q + 10 ≤ bs.size) :
+    Rfc.decodeRR bs p =
+      if q + 10 + be16At bs (q + 8) (by omega) ≤ bs.size then
+        some (refRR bs owner (be16At bs q (by omega)) (be16At bs (q + 2) (by omega)) (be32At bs (q + 4) (by omega))
+                (q + 10) (be16At bs (q + 8) (by omega)), q + 10 + be16At bs (q + 8) (by omega))
+      else none := by
+  unfold Rfc.decodeRR
+  rw [hn]
+  simp only [u16At_eq, u32At_eq]
+  rw [dif_pos (by omega), dif_pos (by omega), dif_pos (by omega), dif_pos (by omega)]
+  rfl
+
+theorem consumeIgnore_eq {bs : Bytes} {off n : Nat} (h : off ≤ bs.size) :
+    consumeIgnore bs n off = .ok () (if off + n ≤ bs.size then off + n else off) := by
+  unfold consumeIgnore
+  rw [consume_eq h]
+  by_cases hc : off + n ≤ bs.size
+  · rw [if_pos hc, if_pos hc]
+  · rw [if_neg hc, if_neg hc]
+
+theorem parseRR_sound {bs : Bytes} {sect : Sect} {p p' hi : Nat} {rr : RR} (hp : p ≤ bs.size)
+    (hr : parseRR bs 0 sect p = .ok (rr, hi) p') :
+    ∃ m, Rfc.decodeRR bs p = some (m, p') ∧ m.toRec = some rr ∧ m.supported = true ∧
+      hi = optHi m.type m.ttl := by
+  unfold parseRR at hr
+  obtain ⟨name, o1, g1, hr⟩ := P.bind_eq_ok hr
+  rw [parseName_eq_rfc bs p hp] at g1
+  cases hn : Rfc.name bs p with
+  | none => rw [hn] at g1; simp at g1
+  | some r =>
+    obtain ⟨owner, q⟩ := r
+    rw [hn] at g1
+    injection g1 with g1 go; subst g1; subst go
+    have hq : q ≤ bs.size := by
+      have := (safe_parseName (bs := bs) (off := p) false hp)
+      unfold SafeAt at this
+      rw [parseName_eq_rfc bs p hp, hn] at this
+      exact this.2
+    obtain ⟨rawType, o2, g2, hr⟩ := P.bind_eq_ok hr
+    obtain ⟨qclass, o3, g3, hr⟩ := P.bind_eq_ok hr
+    obtain ⟨ttl, o4, g4, hr⟩ := P.bind_eq_ok hr
+    obtain ⟨rdlength, o5, g5, hr⟩ := P.bind_eq_ok hr
+    obtain ⟨h10, ho5⟩ := rrFixed_ok hq g2 g3 g4 g5
+    subst ho5
+    obtain ⟨f1, f2, f3, f4⟩ := rrFixed_parse h10
+    rw [f1] at g2
+    injection g2 with e2 eo2; subst e2; subst eo2
+    rw [f2] at g3
+    injection g3 with e3 eo3; subst e3; subst eo3
+    rw [f3] at g4
+    injection g4 with e4 eo4; subst e4; subst eo4
+    rw [f4] at g5
+    injection g5 with e5 eo5; subst e5
+    simp only at hr
+    rw [P.bind_ok (bufLen_eq (by omega))] at hr
+    split at hr
+    · simp at hr
+    · rename_i hfit
+      split at hr
+      · simp at hr
+      · rename_i hvalid
+        simp only [Bool.not_eq_true, Bool.not_eq_eq_eq_not, Bool.not_not, Bool.not_true,
+          Bool.not_eq_false] at hvalid
+        rw [P.bind_ok (bufLen_eq (by omega))] at hr
+        obtain ⟨fr, o6, g6, hr⟩ := P.bind_eq_ok hr
+        obtain ⟨fields, hi'⟩ := fr
+        simp only at hr
+        have b6 := (safe_parseRRData (be16At bs (q + 8) (by omega))
+          (effectiveType 0 sect (be16At bs q (by omega))) (be16At bs q (by omega)) (be16At bs (q + 2) (by omega))
+          (be32At bs (q + 4) (by omega)) (by omega : q + 10 ≤ bs.size)).ok g6
+        rw [P.bind_ok (bufLen_eq b6.2)] at hr
+        obtain ⟨processed, o7, g7, hr2⟩ := P.bind_eq_ok hr
+        obtain ⟨e7, hproc, _⟩ := subChecked_ok g7
+        have ho7 : o7 ≤ bs.size := by omega
+        have w : Win bs (q + 10) (be16At bs (q + 8) (by omega)) := ⟨by omega⟩
+        split at hr2
+        · simp at hr2
+        · rename_i hple
+          have hp6 : o6 ≤ q + 10 + be16At bs (q + 8) (by omega) := by omega
+          obtain ⟨t1, t2, t3⟩ := rrData_sound w sect owner (be16At_lt _) (be32At_lt _) hvalid g6 hp6
+          have hfin : p' = q + 10 + be16At bs (q + 8) (by omega) ∧
+              rr = ⟨escapeName owner, effectiveType 0 sect (be16At bs q (by omega)),
+                rrClass (effectiveType 0 sect (be16At bs q (by omega))) (be16At bs (q + 2) (by omega)),
+                rrTtl (effectiveType 0 sect (be16At bs q (by omega))) (be32At bs (q + 4) (by omega)), fields⟩ ∧
+              hi = hi' := by
+            split at hr2
+            · obtain ⟨_, o8, g8, hr3⟩ := P.bind_eq_ok hr2
+              simp only [P.pure_apply] at hr3
+              injection hr3 with hr3 ho; injection hr3 with h1 h2
+              rw [consumeIgnore_eq ho7] at g8
+              injection g8 with _ g8
+              have b61 := b6.1
+              have b62 := b6.2
+              split at g8
+              · exact ⟨by omega, h1.symm, h2.symm⟩
+              · omega
+            · simp only [P.pure_apply] at hr2
+              injection hr2 with hr3 ho; injection hr3 with h1 h2
+              have b61 := b6.1
+              have b62 := b6.2
+              exact ⟨by omega, h1.symm, h2.symm⟩
+          obtain ⟨hp', hrr, hhi⟩ := hfin
+          subst hp'; subst hrr; subst hhi
+          refine ⟨_, ?_, t1, t2, t3⟩
+          rw [decodeRR_eq hn h10, if_pos (by omega)]
+
+theorem name_next_le {bs : Bytes} {p q : Nat} {owner : List Rfc.Label} (hp : p ≤ bs.size)
+    (hn : Rfc.name bs p = some (owner, q)) : p ≤ q ∧ q ≤ bs.size := by
+  have := (safe_parseName (bs := bs) (off := p) false hp)
+  unfold SafeAt at this
+  rw [parseName_eq_rfc bs p hp, hn] at this
+  exact this
+
+theorem decodeRR_some {bs : Bytes} {p p' : Nat} {m : Rfc.RR} (hd : Rfc.decodeRR bs p = some (m, p')) :
+    ∃ owner q, Rfc.name bs p = some (owner, q) ∧ ∃ h10 : q + 10 ≤ bs.size,
+      q + 10 + be16At bs (q + 8) (by omega) ≤ bs.size ∧
+      m = refRR bs owner (be16At bs q (by omega)) (be16At bs (q + 2) (by omega)) (be32At bs (q + 4) (by omega))
+                (q + 10) (be16At bs (q + 8) (by omega)) ∧
+      p' = q + 10 + be16At bs (q + 8) (by omega) := by
+  cases hn : Rfc.name bs p with
+  | none => unfold Rfc.decodeRR at hd; rw [hn] at hd; simp at hd
+  | some r =>
+    obtain ⟨owner, q⟩ := r
+    refine ⟨owner, q, rfl, ?_⟩
+    by_cases h10 : q + 10 ≤ bs.size
+    · refine ⟨h10, ?_⟩
+      rw [decodeRR_eq hn h10] at hd
+      split at hd
+      · rename_i hfit
+        simp only [Option.some.injEq, Prod.mk.injEq] at hd
+        exact ⟨hfit, hd.1.symm, hd.2.symm⟩
+      · simp at hd
+    · exfalso
+      unfold Rfc.decodeRR at hd
+      rw [hn] at hd
+      simp only [u16At_eq, u32At_eq] at hd
+      by_cases h8 : q + 8 + 2 ≤ bs.size
+      · omega
+      · rw [dif_neg h8] at hd
+        split at hd <;> simp_all
+
+theorem parseRR_complete {bs : Bytes} {sect : Sect} {p p' : Nat} {m : Rfc.RR} (hp : p ≤ bs.size)
+    (hd : Rfc.decodeRR bs p = some (m, p')) (hs : m.supported = true) :
+    ∃ rr hi, parseRR bs 0 sect p = .ok (rr, hi) p' ∧ m.toRec = some rr ∧ hi = optHi m.type m.ttl := by
+  obtain ⟨owner, q, hn, h10, hfit, hm, hp'⟩ := decodeRR_some hd
+  subst hm; subst hp'
+  have hq := name_next_le hp hn
+  have w : Win bs (q + 10) (be16At bs (q + 8) (by omega)) := ⟨hfit⟩
+  obtain ⟨hvalid, fields, hi, p6, g6, hp6, t1, t2⟩ :=
+    rrData_complete w sect owner (be16At_lt _) (be32At_lt _) hs
+  obtain ⟨f1, f2, f3, f4⟩ := rrFixed_parse h10
+  have b6 := (safe_parseRRData (be16At bs (q + 8) (by omega))
+    (effectiveType 0 sect (be16At bs q (by omega))) (be16At bs q (by omega)) (be16At bs (q + 2) (by omega))
+    (be32At bs (q + 4) (by omega)) (by omega : q + 10 ≤ bs.size)).ok g6
+  refine ⟨_, hi, ?_, t1, t2⟩
+  unfold parseRR
+  rw [P.bind_ok (by rw [parseName_eq_rfc bs p hp, hn]), P.bind_ok f1, P.bind_ok f2, P.bind_ok f3, P.bind_ok f4]
+  simp only
+  rw [P.bind_ok (bufLen_eq (by omega)), if_neg (by omega), if_neg (by simp [hvalid]),
+    P.bind_ok (bufLen_eq (by omega)), P.bind_ok g6]
+  simp only
+  rw [P.bind_ok (bufLen_eq b6.2)]
+  have hsub : subChecked (bs.size - (q + 2 + 2 + 4 + 2)) (bs.size - p6) p6 = .ok (p6 - (q + 10)) p6 := by
+    simp only [subChecked]
+    rw [if_pos (by omega)]
+    congr 1; omega
+  rw [P.bind_ok hsub, if_neg (by omega)]
+  by_cases hlt : p6 - (q + 10) < be16At bs (q + 8) (by omega)
+  · rw [if_pos hlt, P.bind_ok (consumeIgnore_eq b6.2), if_pos (by omega)]
+    simp only [P.pure_apply]
+    congr 1; omega
+  · rw [if_neg hlt]
+    simp only [P.pure_apply]
+    congr 1; omega
+
 end Cares.Dns
